@@ -94,7 +94,11 @@ Theorem C15_verneed_ended_at_zero_link : forall le is64 img shdrs n needs,
 Proof. exact verneed_section_ended. Qed.
 Print Assumptions C15_verneed_ended_at_zero_link.
 
-(* ---- the version-symbol table: one (index, name) per dynamic symbol ---- *)
+(* ---- the version-symbol table: one (index, name) per dynamic symbol ----
+   The table's own size decides how many entries are yielded (sh_size / sh_entsize of the version
+   section); entry i is paired with the name of symbol i.  The linked symbol table may hold MORE
+   symbols than the version table has entries (a whole number of them); with equal counts this is
+   "exactly one index per dynamic symbol". *)
 Theorem C15_versym_exact : forall le is64 img shdrs n entries,
   versym_section_wf le is64 img shdrs n entries = true ->
   file_versym_symbols le is64 img shdrs (Z.of_nat n) = Ok (map versym_view entries)
